@@ -72,4 +72,10 @@ def outPastB (s : State) : Bool :=
   s.transports.all (fun t => t.outages.all (fun o => o.st.pastB s.time))
 
 
+/-- every buffer is unordered (hypothesis of C11's progress theorem) -/
+def flexInstB (inst : Instance) : Bool := (allBufCfgs inst).all fun bc => bc.type == .flex
+
+/-- there is a transport of type AGV -/
+def hasAgvB (inst : Instance) : Bool := inst.transports.any fun tc => tc.type == .agv
+
 end JSL
